@@ -112,8 +112,8 @@ def plot_burst_detect_summary(df_features, sig, fs, threshold_kwargs, xlim=None,
 
     for cyc in df_osc.to_dict('records'):
 
-        samp_start_burst = int(cyc['sample_last_' + side_e]) - int(fs * start)
-        samp_end_burst = int(cyc['sample_next_' + side_e] + 1) - int(fs * start)
+        samp_start_burst = int(cyc['sample_last_' + side_e]) - int(np.round(fs * start))
+        samp_end_burst = int(cyc['sample_next_' + side_e] + 1) - int(np.round(fs * start))
 
         is_osc[samp_start_burst:samp_end_burst] = True
 
@@ -139,8 +139,8 @@ def plot_burst_detect_summary(df_features, sig, fs, threshold_kwargs, xlim=None,
         # Highlight where a burst param falls below threshold
         for cyc in df_features.to_dict('records'):
 
-            last_cyc = int(cyc['sample_last_' + side_e]) - int(fs * start)
-            next_cyc = int(cyc['sample_next_' + side_e]) - int(fs * start)
+            last_cyc = int(cyc['sample_last_' + side_e]) - int(np.round(fs * start))
+            next_cyc = int(cyc['sample_next_' + side_e]) - int(np.round(fs * start))
             if cyc[column] < threshold_kwargs[osc_key] and last_cyc > 0:
                 axes[0].axvspan(times[last_cyc], times[next_cyc],
                  alpha=0.5, color=color, lw=0)
